@@ -58,6 +58,9 @@ def frame_verdict(pid, tr, verdict):
 CLAUSES = {
     ('F-02b', 'C03'): {37},          # the clock went back: a record whose exit lies before its arrival
     ('F-02a', 'C03'): {37},
+    # calibrated on the thorough tier of the unchanged tree (every failure the finding produced there had this clause)
+    ('F-02a', 'C02'): {1}, ('F-02b', 'C02'): {2}, ('F-02c', 'C02'): {2},
+    ('F-02b', 'C04'): {32},          # a restarted blocked customer: service start after its (earlier) exit stamp
 }
 
 
